@@ -577,6 +577,45 @@ theorem cluster_path_is_cell_path (cells : List (CellGeom α)) (r : Req α) (us 
         (pr.1.map (fun p => { cell := r.id - 1, pos := p, color := r.color }), pr.2)))) ∧
     (r.id = 0 ∨ cells.length < r.id → clusterPlaceOne cells r us = .error .IndexError) :=
   ⟨fun c h1 hc => clusterPlaceOne_eq_cell_path cells r c us h1 hc, clusterPlaceOne_bad_id cells r us⟩
+/-- **equivalent entry points (R8)**: `add_random_users(n+1, …)` is `add_random_user(…)` followed by
+    `add_random_users(n, …)` on the remaining draws — placing several users at once is placing them
+    one by one with the same colour and ratio. -/
+theorem random_users_are_repeated_single_placements (c : CellGeom α) (ratio : α) (n : ℕ) (us : List (α × α)) :
+    addRandomUsers c ratio 0 us = some ([], us) ∧
+    addRandomUsers c ratio (n + 1) us =
+      (match addRandomUser c.inside c.pos c.radius ratio us with
+       | none => none
+       | some (p, m) => (addRandomUsers c ratio n (us.drop m)).map (fun pr => (p :: pr.1, pr.2))) := by
+  refine ⟨rfl, ?_⟩
+  simp only [addRandomUsers]
+  cases addRandomUser c.inside c.pos c.radius ratio us with
+  | none => rfl
+  | some pm =>
+    obtain ⟨p, m⟩ := pm
+    simp only
+    cases addRandomUsers c ratio n (us.drop m) with
+    | none => rfl
+    | some pr => rfl
+
+/-- **relative = absolute (R8)**: `add_user` with a relative position is `add_user` with the absolute
+    position `rel·scale + pos`; and `ratio=None` of `get_border_point` is `ratio=1`. -/
+theorem add_user_relative_is_absolute (inside : Pt α → Bool) (pos rel : Pt α) (scale : α) (verts : List (Pt α)) (d : Pt α) :
+    addUserRel inside pos scale rel = addUser inside (padd (smul scale rel) pos) ∧
+    borderPointOpt pos verts d none = borderPoint pos verts d 1 ∧
+    ∀ r, borderPointOpt pos verts d (some r) = borderPoint pos verts d r := by
+  refine ⟨rfl, ?_, fun r => rfl⟩
+  simp only [borderPointOpt, Nat.cast_one]
+
+/-- **insertion order (R12)**: the users of a cluster, in the order the distance matrix lists them (cell by
+    cell), depend only on the per-cell sequences of additions, not on how additions to DIFFERENT cells
+    were interleaved. -/
+theorem users_by_cell_order_independent (n : ℕ) (adds₁ adds₂ : List (ℕ × Pt α))
+    (h : ∀ i, i < n → adds₁.filter (fun a => a.1 == i) = adds₂.filter (fun a => a.1 == i)) :
+    usersByCell n adds₁ = usersByCell n adds₂ := by
+  unfold usersByCell
+  apply List.flatMap_congr
+  intro i hi
+  rw [h i (List.mem_range.mp hi)]
 end placement
 
 /-- non-vacuity: two ids, a scalar number of users and per-cell ratios give two requests -/
